@@ -176,8 +176,9 @@ COMP = {
     "or3": ("~ logic-mode: OR ~ ", '$SYM[*][ gt(line_number(), @t1) @p1.asbool gt(@t2, line_number()) ]'),
     "when-assign": ("", '$SYM[*][ @x = line_number()  gt(@x, @t1) -> gt(@t2, @x)  @p1 ]'),
     "counts": ("", '$SYM[*][ gt(count_scans(), @t1) gt(@t2, count_lines()) ]'),
-    # OR mode with a component that raises on line t2 (error policy: collect only): an erroring component does not hold
-    "or-error": ("~ logic-mode: OR ~ ", '$SYM[*][ gt(line_number(), @t1) gt(mod(1, subtract(line_number(), @t2)), 5) ]'),
+    # OR mode with a component that raises on line 3, whose cell is not a number (error policy: collect only): an erroring
+    # component does not hold
+    "or-error": ("~ logic-mode: OR ~ ", '$SYM[*][ gt(line_number(), @t1) equals(add(#0, 0), 100) ]'),
     "nocontrib-last": ("", '$SYM[*][ gt(line_number(), @t1) @p1.nocontrib == 1 -> push("s", line_number()) last.nocontrib() -> push("l", line_number()) ]'),
 }
 
@@ -199,7 +200,7 @@ def comp_oracle(tpl, t1, t2, p1, b1, b2):
         g = i > t1
         l = i < t2
         if tpl == "or-error":
-            m = g  # the second component never holds: 1 mod n is below 5, and on line t2 it raises
+            m = g  # the second component never holds: no cell is 100, and on line 3 it raises
         elif tpl == "and3":
             m = g and p1 and l
         elif tpl == "or3":
@@ -228,14 +229,17 @@ def comp_oracle(tpl, t1, t2, p1, b1, b2):
 def comp_run(tpl: str, t1: int, t2: int, p1: bool, b1: bool, b2: bool) -> List[int]:
     comment, text = COMP[tpl]
     blanks = [False, b1, b2, False]
-    p, pr = fresh(comment + text, [[] if blanks[i] else [str(i)] for i in range(NREC)], policy=["collect"] if tpl == "or-error" else None)
+    cells = [str(i) for i in range(NREC)]
+    if tpl == "or-error":
+        cells[3] = "oops"
+    p, pr = fresh(comment + text, [[] if blanks[i] else [cells[i]] for i in range(NREC)], policy=["collect"] if tpl == "or-error" else None)
     p.variables["t1"] = t1
     p.variables["t2"] = t2
     if tpl == "or3":
         p.variables["p1"] = p1
     elif p1:
         p.variables["p1"] = 1
-    return [int(l[0]) for l in p.collect()]
+    return [3 if l[0] == "oops" else int(l[0]) for l in p.collect()]
 
 
 @ob(
